@@ -32,3 +32,21 @@ func init() {
 		return tuple{m.sliceFromValues(strBytes("\"<json>\"")), iface{}}, true
 	})
 }
+
+func init() {
+	// unique.Make: canonical handle per distinct (concrete) value; Handle[T] is struct{ value *T }.
+	reg("unique.Make", func(m *machine, fr *frame, fn *ssa.Function, a []value) (value, bool) {
+		key := "unique:" + fn.Signature.Results().At(0).Type().String() + ":" + m.formatValue(fr, a[0], 'v')
+		tab, _ := m.hostState["unique"].(map[string]*object)
+		if tab == nil {
+			tab = map[string]*object{}
+			m.hostState["unique"] = tab
+		}
+		o, ok := tab[key]
+		if !ok {
+			o = m.newObject(copyVal(a[0]), "unique value")
+			tab[key] = o
+		}
+		return structure{ptr{o: o, c: &o.v}}, true
+	})
+}
